@@ -8,6 +8,7 @@ import (
 	"runtime"
 	"runtime/debug"
 	"sort"
+	"strconv"
 	"sync/atomic"
 	"syscall"
 	"time"
@@ -74,7 +75,11 @@ func RunWorker(o WorkerOpts) int {
 		return 2
 	}
 	// one thread of control per worker; the second P only serves the GC and the watchdog
-	runtime.GOMAXPROCS(2)
+	procs := 2
+	if v, err := strconv.Atoi(os.Getenv("GOATSIM_PROCS")); err == nil && v > 0 {
+		procs = v // determinism self-test: vary the number of Ps
+	}
+	runtime.GOMAXPROCS(procs)
 	debug.SetGCPercent(400)
 	if o.MemLimit > 0 {
 		lim := syscall.Rlimit{Cur: o.MemLimit, Max: o.MemLimit}
